@@ -137,6 +137,7 @@ func TestWorker(t *testing.T) {
 		} else {
 			plan = gen(seed)
 		}
+		plan.Normalize()
 		emit(map[string]any{"start": i, "seed": seed})
 		st := core.NewStream(seed ^ 0x5bd1e995)
 		st.Limit = envInt("VERIF_MAX_DECISIONS", 6000)
